@@ -261,3 +261,19 @@ Theorem C02_pipelined_fidelity : forall cb g (rs : list wr_request) (chunks : li
           (c_txs (fst (cp_run cb g connp_new (OpOpen :: map OpReqData chunks)))) rs.
 Proof. intros cb g rs chunks H1 H2 H3 H4 H5 H6. exact (proj1 (sg_pipeline_fidelity cb g rs chunks H1 H2 H3 H4 H5 H6)). Qed.
 Print Assumptions C02_pipelined_fidelity.
+
+(* ---- both directions at history level: n exchanges (request with a known method; response = status line, header fields one line each, Content-Length body),
+        all requests in ANY chunking, then all responses in ANY chunking: transaction i reports request i (method, URI, protocol, header table) AND response i
+        (protocol, status text and number, reason, header table, entity and message length, COMPLETE): what was sent is what is reported, and nothing is taken
+        from a neighbouring message. (The statement of C04_pairing_under_pipelining, read as fidelity.) ---- *)
+Require Import Htp.Proof.PSegRes Htp.Proof.PSegResRun Htp.Proof.PSegResThm Htp.Proof.PSegResCanon.
+Require Import Htp.Proof.PPair Htp.Proof.PPairThm Htp.Proof.PPairB Htp.Proof.PPairThmB.
+Theorem C02_exchange_fidelity_both_directions : forall cb g (xl : list pp_xc) (qchunks schunks : list bytes),
+  wr_all_ok cb -> g_allow_space_uri g = false -> g_tx_auto_destroy g = false -> (g_max_tx g = 0 \/ length xl < g_max_tx g)%nat ->
+  forallb (pp_xc_ok g) xl = true -> Forall pp_plain xl ->
+  Forall (fun c => c <> []) qchunks -> concat qchunks = concat (map (fun x => wr_request_wire (xq x)) xl) ->
+  Forall (fun c => c <> []) schunks -> concat schunks = concat (map pp_xwire xl) -> pp_f1_free xl schunks = true ->
+  Forall2 (fun slot x => exists t, slot = Some t /\ wr_reported (sg_mask t) (xq x) /\ sr_reported t (xs x) (xbody x))
+          (c_txs (fst (cp_run cb g connp_new (OpOpen :: map OpReqData qchunks ++ map OpResData schunks)))) xl.
+Proof. exact pp_pairing_chunked_reported. Qed.
+Print Assumptions C02_exchange_fidelity_both_directions.
